@@ -553,6 +553,44 @@ impl<'a, 'tcx> Cx<'a, 'tcx> {
                 }
             }
         }
+        // small arrays of integers (`const RESERVED: [usize; 2] = [0, 1]`): the element values
+        if let ty::Array(elem, len) = ty.kind() {
+            let esz: Option<(usize, bool)> = match elem.kind() {
+                ty::Uint(u) => Some((u.bit_width().unwrap_or(64) as usize / 8, false)),
+                ty::Int(i) => Some((i.bit_width().unwrap_or(64) as usize / 8, true)),
+                ty::Char => Some((4, false)),
+                ty::Bool => Some((1, false)),
+                _ => None,
+            };
+            if let (Some((esz, signed)), Some(n)) = (esz, len.try_to_target_usize(tcx)) {
+                if n <= 32 {
+                    if let Ok(mir::ConstValue::Indirect { alloc_id, offset }) = c.const_.eval(tcx, self.env, rustc_span::DUMMY_SP) {
+                        if let rustc_middle::mir::interpret::GlobalAlloc::Memory(a) = tcx.global_alloc(alloc_id) {
+                            let a = a.inner();
+                            let start = offset.bytes() as usize;
+                            let end = start + esz * n as usize;
+                            if end <= a.len() {
+                                let bytes = a.inspect_with_uninit_and_ptr_outside_interpreter(start..end);
+                                let mut els = vec![];
+                                for i in 0..n as usize {
+                                    let mut x: u128 = 0;
+                                    for j in 0..esz {
+                                        x |= (bytes[i * esz + j] as u128) << (8 * j);
+                                    }
+                                    let val: i128 = if signed && esz < 16 && (x >> (8 * esz - 1)) & 1 == 1 {
+                                        (x as i128) - (1i128 << (8 * esz))
+                                    } else {
+                                        x as i128
+                                    };
+                                    els.push(J::Num(val));
+                                }
+                                v.push(("array_vals", J::Arr(els)));
+                            }
+                        }
+                    }
+                }
+            }
+        }
         match ty.kind() {
             ty::Bool | ty::Int(_) | ty::Uint(_) | ty::Char => {
                 if let Some(si) = c.const_.try_eval_scalar_int(tcx, self.env) {
